@@ -66,7 +66,7 @@ fn replay_case(case: &Value) -> Option<(bool, String)> {
         "c12" | "c12float" => props::c12::replay(case),
         "c07geom" | "c07enc" | "c07curve" | "c07special" => props::c07::replay(case),
         "c13cube" | "c13strat" | "c13stratcase" | "c13unit" => props::c13::replay(case),
-        "c11dec" | "c11float" | "c11enc" => props::c11::replay(case),
+        "c11dec" | "c11float" | "c11enc" | "c11hist" => props::c11::replay(case),
         "c09" => props::c09::replay(case),
         "c20exact" => props::c20::replay(case),
         _ => return None,
@@ -118,9 +118,30 @@ fn main() {
             };
             let out = args.iter().position(|a| a == "--out").map(|i| args[i + 1].clone());
             let t0 = std::time::Instant::now();
-            let Some(rep) = run_prop(&args[2], tier) else {
-                eprintln!("unknown property {}", args[2]);
-                std::process::exit(2)
+            let id = args[2].clone();
+            let rep = match std::panic::catch_unwind(|| run_prop(&id, tier)) {
+                Ok(Some(r)) => r,
+                Ok(None) => {
+                    eprintln!("unknown property {id}");
+                    std::process::exit(2)
+                }
+                Err(_) => {
+                    // A panic escaped a call the harness did not guard. If it originates in the
+                    // library under test it is a finding (the library panicked on an input of the
+                    // property's own domain); if it originates in the harness it is a machinery bug.
+                    let msg = explore::unguarded_panic().unwrap_or_default();
+                    if !msg.contains("/repo/") {
+                        eprintln!("harness panic: {msg}");
+                        std::process::exit(101)
+                    }
+                    let mut r = Report::new(&id);
+                    r.acc.states = 1;
+                    r.acc.transitions = 1;
+                    r.acc.samples.push(serde_json::json!({"note": "exploration aborted by a library panic"}));
+                    r.acc.violation(0, format!("library-panic {}", explore::panic_site(&msg)), format!("the library panicked on an input of this property's domain: {msg}"), serde_json::json!({"kind": "rerun", "property": id, "tier": tier.name()}));
+                    r.bound = "exploration aborted at the first library panic".into();
+                    r
+                }
             };
             let mut j = rep.to_json();
             j["wall_s"] = serde_json::json!(t0.elapsed().as_secs_f64());
@@ -162,6 +183,15 @@ fn main() {
             let txt = std::fs::read_to_string(&args[2]).expect("read replay file");
             let v: Value = serde_json::from_str(&txt).expect("parse replay file");
             let case = if v.get("case").is_some() { &v["case"] } else { &v };
+            if case["kind"] == "rerun" {
+                let tier = if case["tier"] == "quick" { Tier::Quick } else { Tier::Thorough };
+                let id = case["property"].as_str().unwrap().to_string();
+                let r = std::panic::catch_unwind(|| run_prop(&id, tier));
+                let msg = explore::unguarded_panic().unwrap_or_default();
+                let violated = r.is_err() && msg.contains("/repo/");
+                println!("REPLAY violated={violated} :: library-panic :: {msg}");
+                std::process::exit(if violated { 1 } else { 0 });
+            }
             if case["kind"] == "range" {
                 // re-run a whole index range of a staged check in this process (expected to die)
                 let tier = if case["tier"] == "quick" { Tier::Quick } else { Tier::Thorough };
